@@ -11,7 +11,7 @@ RULE = ('evaluators: complete enumeration of state dimension {1,2,3} x diffusion
         'columns i at three sample points, against b.grad f + 1/2 a:Hess f and grad f . sigma_i with the gradient of the PRODUCT '
         'obtained by complex-step differentiation and its Hessian by central differences of that gradient. amuset_hosvd: '
         'complete enumeration of d {1,2} x d2 {1,2,3} x m {4,6,9} x basis x drift {given, None} x reweight {None, positive} x '
-        'threshold kind {absolute, relative} x max_rank {inf, non-binding cap} x num_eigvals x return option, against the dense '
+        'threshold kind {absolute, relative} x max_rank {inf, non-binding cap} x num_eigvals x return option, plus a generator of magnitude 1e-10 and integer-dtype data, against the dense '
         'projected generator matrix from an SVD of the (reweighted) transformed data matrix with the same cut. Non-trivial: '
         'every case.')
 ASSUMPTIONS = ['complex-step gradient / central-difference Hessian of the product function are the reference (tolerance 1e-6)',
@@ -59,6 +59,10 @@ def cases(tier):
                                                 continue
                                             yield {'k': 'amuset', 'd': d, 'd2': d2, 'm': m, 'ws': [list(w) for w in ws], 'b': bg, 'rw': rw,
                                                    'rel': rel, 'mr': mr, 'nev': nev, 'ro': ro}
+                            # a generator of tiny magnitude (drift and diffusion covariance scaled by 1e-10) and integer-dtype data
+                            for var in ('tiny', 'intdata'):
+                                yield {'k': 'amuset', 'd': d, 'd2': d2, 'm': m, 'ws': [list(w) for w in ws], 'b': bg, 'rw': rw,
+                                       'rel': False, 'mr': 'inf', 'nev': 'inf', 'ro': 'eigenfunctionevals', 'var': var}
                             # thresholds that really cut the spectrum of Psi(X) (absolute and relative), only the last unfolding
                             for rel in (False, True):
                                 for lvl in ((0.3, 0.1, 0.03, 0.01) if rel else (1.0, 0.3, 0.1, 0.03)):
@@ -120,10 +124,16 @@ def run_case(case, seed):
         return r
     # ---- amuset_hosvd
     m = case['m']
-    x = rng.uniform(-1.2, 1.2, (d, m)); x0 = x.copy()
-    sigma = rng.standard_normal((d, d2, m)); s0 = sigma.copy()
-    b = rng.standard_normal((d, m)) if case['b'] else None
+    x = rng.uniform(-1.2, 1.2, (d, m))
+    if case.get('var') == 'intdata':
+        x = rng.integers(-2, 3, (d, m)) + 5 * np.arange(m)[None, :] * (np.arange(d)[:, None] == 0)     # integer dtype, distinct snapshots
+    x0 = x.copy()
+    gscale = 1e-10 if case.get('var') == 'tiny' else 1.0
+    sigma = np.sqrt(gscale) * rng.standard_normal((d, d2, m)); s0 = sigma.copy()
+    b = gscale * rng.standard_normal((d, m)) if case['b'] else None
+    b0 = None if b is None else b.copy()
     w = rng.uniform(0.5, 2.0, m) if case['rw'] else None
+    w0 = None if w is None else w.copy()
     N = int(np.prod(n))
     idxs = list(itertools.product(*[range(k) for k in n]))
     Psi = np.array([[prod_f(basis, s, x[:, l]) for l in range(m)] for s in idxs])          # N x m
@@ -166,6 +176,7 @@ def run_case(case, seed):
             a = sigma[:, :, l] @ sigma[:, :, l].T
             Z = np.diag(1 / S) @ U.T @ G                                     # k x d
             M += -0.5 * ww[l] * Z @ a @ Z.T
+    M = M / gscale                      # compare at unit scale; the library's eigenvalues are divided by gscale below
     lam, W = np.linalg.eig(M)
     order = np.argsort(-lam)
     lam = lam[order]; W = W[:, order]
@@ -176,7 +187,7 @@ def run_case(case, seed):
         with quiet():
             ev, out, ranks = tgedmd.amuset_hosvd(x, basis, sigma, b=b, reweight=w, num_eigvals=nev, threshold=thr, max_rank=mr,
                                                  return_option=case['ro'], rel_threshold=case['rel'])
-        ev = np.asarray(ev)
+        ev = np.asarray(ev) / gscale
         kk = k if nev == np.inf else min(k, 2)
         if r.true(key + ':eigenvalue-count', ev.shape == (kk,), 'got %s expected %d (rank %d)' % (ev.shape, kk, k)):
             # multiset comparison (greedy matching against the leading part of the sorted dense spectrum)
@@ -213,5 +224,6 @@ def run_case(case, seed):
                             refv = U @ W[:, match[i]]
                             worst = max(worst, 1 - abs(np.vdot(v, refv)) / max(1e-300, np.linalg.norm(v) * np.linalg.norm(refv)))
                         r.true(key + ':eigentensors', worst <= 1e-5 * cond, 'worst 1-|cos| %.3e' % worst)
-    r.true(key + ':inputs-unchanged', np.array_equal(x, x0) and np.array_equal(sigma, s0))
+    r.true(key + ':inputs-unchanged', np.array_equal(x, x0) and np.array_equal(sigma, s0) and (b is None or np.array_equal(b, b0)) and
+           (w is None or np.array_equal(w, w0)), 'data, sigma, drift or the reweighting vector were modified')
     return r
